@@ -312,7 +312,10 @@ class Interp:
 
     def assign(self, target, v, env):
         if isinstance(target, ast.Name):
-            env.vars[target.id] = v
+            name = target.id
+            if env.is_class and name.startswith("__") and not name.endswith("__"):
+                name = "_" + env.vars.get("__qualname__local__", "").lstrip("_") + name
+            env.vars[name] = v
         elif isinstance(target, ast.Attribute):
             self.setattr_(self.eval(target.value, env), self.mangle(target.attr, env), v)
         elif isinstance(target, ast.Subscript):
@@ -1221,8 +1224,8 @@ class Interp:
         """iterate; a range with symbolic bounds is unrolled by deciding `i < stop` on the path each round
         (every path is finite because the budget of decisions is; no bound is assumed on the range itself)"""
         if isinstance(v, self.lib.SymRange):
-            if not (isinstance(v.step, int) and v.step == 1):
-                raise OutOfReach("symbolic range with a step")
+            if not (isinstance(v.step, int) and v.step >= 1):
+                raise OutOfReach("symbolic range with a non-positive or symbolic step")
             return self._sym_range(v)
         return self.iter_list(v)
 
@@ -1232,7 +1235,7 @@ class Interp:
         while True:
             if k > 600:
                 raise OutOfReach("more than 600 iterations of a symbolic range")
-            cur = mk_int(T(v.start) + k)
+            cur = mk_int(T(v.start) + k * v.step)
             if not c.branch(T(cur) < T(v.stop)):
                 return
             yield cur
